@@ -164,7 +164,9 @@ class Impl:
         dbidx = {id(d): i for i, d in self.srv.dbs.items()}
         for c in sorted(self.socks):
             s = self.socks[c]
-            conns[c] = dict(db=s._db_num, tx='-' if s._transaction is None else str(len(s._transaction)),
+            pk = getattr(self, 'parked_kind', {}).get(c) if c in getattr(self, 'waiters', {}) else None
+            conns[c] = dict(parked='-' if pk is None else pk + ('!' if self.waiters[c]['notified'] else ''),
+                            db=s._db_num, tx='-' if s._transaction is None else str(len(s._transaction)),
                             failed=s._transaction_failed, wn=s._watch_notified,
                             watch=sorted({'%d/%s' % (dbidx[id(d)], k.hex()) for (k, d) in s._watches}),
                             pubsub=s._pubsub, closed=c in self.closed, dead=s._parser.gi_frame is None)
@@ -190,8 +192,9 @@ def render_snapshot(st):
     for name in ('subs', 'psubs'):
         parts.append('%s{%s}' % (name, ','.join('%s=%s' % (ch, '+'.join(map(str, ids))) for ch, ids in st['tables'][name])))
     for c, x in sorted(st['conns'].items()):
-        parts.append('c%d{db=%d,tx=%s,failed=%s,wn=%s,watch=%s,pubsub=%d,closed=%s,dead=%s,parked=-}' % (
-            c, x['db'], x['tx'], b(x['failed']), b(x['wn']), '+'.join(x['watch']), x['pubsub'], b(x['closed']), b(x['dead'])))
+        parts.append('c%d{db=%d,tx=%s,failed=%s,wn=%s,watch=%s,pubsub=%d,closed=%s,dead=%s,parked=%s}' % (
+            c, x['db'], x['tx'], b(x['failed']), b(x['wn']), '+'.join(x['watch']), x['pubsub'], b(x['closed']), b(x['dead']),
+            x.get('parked', '-')))
     parts.append('lastsave=%d' % st['lastsave'])
     parts.append('connected=%s' % b(st['connected']))
     return 'S ' + ' '.join(parts)
